@@ -3,9 +3,12 @@ package main
 import (
 	"encoding/json"
 	"reflect"
+	"strings"
+
+	jwt "github.com/nats-io/jwt/v2"
 )
 
-// C03 — Encode then Decode is lossless. (First stream: the codec correspondence on every schema.)
+// C03 — Encode then Decode is lossless for every claim kind.
 
 func init() { runners["C03"] = runner{run: runC03, replay: nil} }
 
@@ -30,13 +33,160 @@ func codecStream(c *Ctx, n int, plain bool) {
 		out := implCodec(t, text)
 		c.Op(out, out != "err", "codec", name, hx(text))
 		c.Count("codec:" + kind + ":" + out[:2])
-		if i < 2 {
+		if i < 1 {
 			c.Sample(map[string]string{"schema": name, "json": text})
 		}
 	}
 }
 
+// hasZeroScopeLimit / hasTiersAndFlat: the two recorded deviations (DESIGN 7: K2, K1)
+func hasZeroScopeLimit(cl jwt.Claims) bool {
+	ac, ok := cl.(*jwt.AccountClaims)
+	if !ok {
+		return false
+	}
+	for _, s := range ac.SigningKeys {
+		var t *jwt.UserPermissionLimits
+		switch us := s.(type) {
+		case *jwt.UserScope:
+			if us != nil {
+				t = &us.Template
+			}
+		case jwt.UserScope:
+			t = &us.Template
+		}
+		if t != nil && (t.Subs == 0 || t.Data == 0 || t.Payload == 0) {
+			return true
+		}
+	}
+	return false
+}
+func hasTiersAndFlat(cl jwt.Claims) bool {
+	ac, ok := cl.(*jwt.AccountClaims)
+	return ok && len(ac.Limits.JetStreamTieredLimits) > 0 && ac.Limits.JetStreamLimits != (jwt.JetStreamLimits{})
+}
+
+// scopesOutOfPlace: a scope stored under a map key different from its own Key decodes under its own key
+func scopesOutOfPlace(cl jwt.Claims) bool {
+	ac, ok := cl.(*jwt.AccountClaims)
+	if !ok {
+		return false
+	}
+	for k, s := range ac.SigningKeys {
+		if s != nil && s.SigningKey() != k {
+			return true
+		}
+	}
+	return false
+}
+
 func runC03(c *Ctx) {
-	c.Res.Rule = "codec correspondence: random values of every exported struct type (reflective generator: nil/empty/filled containers, int edges, special strings, real nkeys) -> json.Marshal -> optional structural mutation -> json.Unmarshal into the Go type vs the Lean codec on the generated schema (dump of the decoded value and the re-marshalled bytes must be identical)"
-	codecStream(c, c.N(3000, 200000), true)
+	c.Res.Rule = "(a) codec correspondence: random values of every exported struct type of both packages (reflective generator: nil/empty/filled containers, int edges, JSON/HTML-special and non-ASCII strings, real nkeys) -> json.Marshal -> optional structural mutation -> json.Unmarshal vs the Lean codec on the generated schema (decoded value and re-marshalled bytes identical); (b) round trip on the real code: random claims of all seven kinds and every permitted signer role -> Encode -> Decode, the kind's typed decoder and DecodeGeneric: same kind, every field equal to the encoded object (reflective deep compare modulo nil/empty containers), decode -> re-encode -> decode stable; each token also goes through the model's Encode and Decode. non-trivial = distinct claims / documents."
+	codecStream(c, c.N(2500, 200000), true)
+	n := c.N(1500, 120000)
+	for i := 0; i < n; i++ {
+		kind := allKinds[c.R.Intn(len(allKinds))]
+		cl, kp := randomClaims(c, kind, true)
+		rp := map[string]interface{}{"kind": kind, "claims_dump": dumpAny(cl), "signer": pubOf(kp)}
+		tok, err := encodeOp(c, kind, cl, kp, true)
+		if err != nil {
+			c.Count("encode-error:" + kind)
+			continue
+		}
+		want := dumpNorm(cl) // the object as Encode left it
+		checkToken(c, tok, c01Replay{tok, "", "roundtrip"}, nil)
+		dc, derr := jwt.Decode(tok)
+		known := ""
+		switch {
+		case hasTiersAndFlat(cl):
+			known = "tiers-clear-flat-limits"
+		case hasZeroScopeLimit(cl):
+			known = "scope-template-zero-limit"
+		}
+		if derr != nil {
+			c.Violate("decode-refuses", "Decode refuses a token the library just encoded ("+kind+"): "+derr.Error(), rp)
+			continue
+		}
+		if kindOfClaims(dc) != kind {
+			c.Violate("kind-changed", "decoded kind "+kindOfClaims(dc)+" for an encoded "+kind, rp)
+			continue
+		}
+		got := dumpNorm(dc)
+		if got != want && !scopesOutOfPlace(cl) {
+			if known != "" {
+				c.Violate(known, "recorded deviation", rp)
+			} else {
+				c.Violate("field-lost", "decoded "+kind+" claims differ from the encoded object: "+firstDiff(want, got), rp)
+			}
+		}
+		// typed decoder agrees with the general one
+		for _, td := range typedDecoders {
+			if td.kind == kind {
+				tc, terr := td.f(tok)
+				if terr != nil || dumpNorm(tc) != got {
+					c.Violate("typed-decoder", "the typed decoder for "+kind+" disagrees with Decode", rp)
+				}
+			}
+		}
+		// generic reader accepts it too and reports the same standard fields
+		g, gerr := jwt.DecodeGeneric(tok)
+		if gerr != nil {
+			c.Violate("decode-refuses", "DecodeGeneric refuses a token the library just encoded: "+gerr.Error(), rp)
+		} else if dumpNorm(&g.ClaimsData) != dumpNorm(dc.Claims()) {
+			c.Violate("field-lost", "DecodeGeneric reports different standard fields", rp)
+		}
+		// decode -> re-encode -> decode
+		tok2, err2 := dc.Encode(kp)
+		if err2 != nil {
+			c.Violate("reencode", "re-encoding the decoded claims fails: "+err2.Error(), rp)
+			continue
+		}
+		dc2, derr2 := jwt.Decode(tok2)
+		if derr2 != nil {
+			c.Violate("reencode", "decoding the re-encoded token fails: "+derr2.Error(), rp)
+			continue
+		}
+		a, b := dumpNorm(dc), dumpNorm(dc2)
+		// the two encodes may fall into different seconds: ignore iat and the id derived from it
+		if stripStamp(a) != stripStamp(b) {
+			c.Violate("reencode", "decode/re-encode/decode changed the content: "+firstDiff(a, b), rp)
+		}
+		c.Count("roundtrip:" + kind)
+		if i < 2 {
+			c.Sample(map[string]interface{}{"kind": kind, "token": tok})
+		}
+	}
+}
+
+func stripStamp(d string) string {
+	for _, k := range []string{"iat", "jti"} {
+		key := hx(k) + ":"
+		if i := strings.Index(d, key); i >= 0 {
+			j := i + len(key)
+			for j < len(d) && d[j] != ',' && d[j] != '}' {
+				j++
+			}
+			d = d[:i+len(key)] + d[j:]
+		}
+	}
+	return d
+}
+
+func firstDiff(a, b string) string {
+	i := 0
+	for i < len(a) && i < len(b) && a[i] == b[i] {
+		i++
+	}
+	lo := i - 60
+	if lo < 0 {
+		lo = 0
+	}
+	ea, eb := i+60, i+60
+	if ea > len(a) {
+		ea = len(a)
+	}
+	if eb > len(b) {
+		eb = len(b)
+	}
+	return "…" + a[lo:ea] + "… vs …" + b[lo:eb] + "…"
 }
